@@ -79,6 +79,7 @@ def run_property(pid: str, level: str, tier: str, jobs: list, meta: dict) -> int
     samples = []
     unbounded_obs = 0
     seen_known = set()
+    declined_reasons = []
 
     for job, res in zip(jobs, results):
         funcs.update(res.get("funcs", []))
@@ -92,6 +93,7 @@ def run_property(pid: str, level: str, tier: str, jobs: list, meta: dict) -> int
             continue
         if res.get("declined"):
             n_declined += 1
+            declined_reasons.append(f"{job.jid}: {res['declined']}"[:240])
         for s in res.get("sides", []):
             n_sides += 1
             if s["ok"]:
@@ -168,6 +170,7 @@ def run_property(pid: str, level: str, tier: str, jobs: list, meta: dict) -> int
         "candidates": n_cand, "reproduced": n_repro,
         "side_assertions": n_sides, "side_failures": n_side_fail,
         "cases_declined_by_real_code": n_declined,
+        "declined_reasons": declined_reasons[:40],
         "jobs": len(jobs),
         "crosshair_paths": paths, "paths_reaching_final_comparison": reached,
         "solver_queries": queries + meta.get("smt_queries", 0),
